@@ -23,24 +23,41 @@ Dev(tag, part, info) == [tag |-> tag, part |-> part, info |-> info]
 
 \* st: nextIn = next input id expected; injected = ids handed to the tty so far; accepted / delivered posts per poster
 InitSt == [nextIn |-> 0, injected |-> 0, acc |-> [p \in 0..7 |-> <<>>], del |-> [p \in 0..7 |-> 0], refused |-> {},
-           focusIn |-> 0, focusOut |-> 0, ended |-> FALSE]
+           focusIn |-> 0, focusOut |-> 0, ended |-> FALSE,
+           injAt |-> <<>>,        \* injAt[id + 1]: when the bytes of input number id were handed to the terminal
+           pasteAt |-> <<>>, pStart |-> 0, pEnd |-> 0]   \* bracketed pastes: injection times, markers delivered
 
 Step(e) ==
     CASE e.ev = "Inject" ->
-           <<[st EXCEPT !.injected = @ + Len(e.ids), !.focusIn = @ + (IF e.focus THEN 1 ELSE 0)], {}>>
+           <<[st EXCEPT !.injected = @ + Len(e.ids), !.focusIn = @ + (IF e.focus THEN 1 ELSE 0),
+                        !.injAt = @ \o [i \in 1..Len(e.ids) |-> e.at],
+                        !.pasteAt = IF e.paste THEN Append(@, e.at) ELSE @], {}>>
       [] e.ev = "Post" ->
            <<IF e.ok THEN [st EXCEPT !.acc[e.p] = Append(@, e.n)] ELSE [st EXCEPT !.refused = @ \cup {<<e.p, e.n>>}],
              IF e.ok \/ e.full THEN {} ELSE {Dev("C05.post_error", "neither_nil_nor_full", <<e.p, e.n>>)}>>
       [] e.ev = "Poll" ->
            LET timing == (IF e.whenpanic THEN {Dev("C05.when", "panic", e.kind)}
                           ELSE IF e.when > e.at THEN {Dev("C05.when", "after_delivery", <<e.kind, e.when, e.at>>)} ELSE {})
+                         \* one event object per cause: the same object twice cannot carry both times
+                         \cup (IF e.dup THEN {Dev("C05.order", "event_object_delivered_twice", e.kind)} ELSE {})
                          \cup (IF e.pending /\ e.waited_us > 200000 THEN {Dev("C05.pending", "poll_blocked_after_true", e.waited_us)} ELSE {})
            IN CASE e.kind = "in" ->
                      <<[st EXCEPT !.nextIn = IF e.id >= @ THEN e.id + 1 ELSE @],
                        timing \cup (IF e.id = st.nextIn THEN {}
                                     ELSE IF e.id < st.nextIn THEN {Dev("C05.order", "duplicate_or_reordered", <<e.id, st.nextIn>>)}
                                     ELSE {Dev("C05.lost", "input_skipped", <<st.nextIn, e.id>>)})
-                              \cup (IF e.id < st.injected THEN {} ELSE {Dev("C05.order", "delivered_before_injected", e.id)})>>
+                              \cup (IF e.id < st.injected THEN {} ELSE {Dev("C05.order", "delivered_before_injected", e.id)})
+                              \* When() is not earlier than the arrival of the bytes that caused the event
+                              \cup (IF ~e.whenpanic /\ e.id >= 0 /\ e.id < Len(st.injAt) /\ e.when < st.injAt[e.id + 1]
+                                    THEN {Dev("C05.when", "before_its_cause", <<e.id, e.when, st.injAt[e.id + 1]>>)} ELSE {})>>
+                [] e.kind = "paste" ->
+                     LET n == (IF e.start THEN st.pStart ELSE st.pEnd) + 1 IN
+                     <<IF e.start THEN [st EXCEPT !.pStart = n] ELSE [st EXCEPT !.pEnd = n],
+                       timing \cup (IF n > Len(st.pasteAt) THEN {Dev("C05.order", "paste_marker_never_typed", <<e.start, n>>)}
+                                    ELSE IF ~e.whenpanic /\ e.when < st.pasteAt[n] THEN {Dev("C05.when", "before_its_cause", <<"paste", n, e.when, st.pasteAt[n]>>)}
+                                    ELSE {})
+                              \cup (IF e.start /\ st.pStart # st.pEnd THEN {Dev("C05.order", "paste_start_inside_paste", n)}
+                                    ELSE IF ~e.start /\ st.pStart # st.pEnd + 1 THEN {Dev("C05.order", "paste_end_without_start", n)} ELSE {})>>
                 [] e.kind = "post" ->
                      LET k == st.del[e.p] + 1 IN
                      <<[st EXCEPT !.del[e.p] = k],
@@ -52,7 +69,9 @@ Step(e) ==
       [] e.ev = "Quiescent" ->
            <<st, (IF st.nextIn = st.injected THEN {} ELSE {Dev("C05.lost", "input_never_delivered", <<st.nextIn, st.injected>>)})
                  \cup {Dev("C05.lost", "post_never_delivered", <<p, Len(st.acc[p]) - st.del[p]>>) : p \in {q \in 0..7 : st.del[q] < Len(st.acc[q])}}
-                 \cup (IF st.focusOut = st.focusIn THEN {} ELSE {Dev("C05.lost", "focus_event", <<st.focusIn, st.focusOut>>)})>>
+                 \cup (IF st.focusOut = st.focusIn THEN {} ELSE {Dev("C05.lost", "focus_event", <<st.focusIn, st.focusOut>>)})
+                 \cup (IF st.pStart = Len(st.pasteAt) /\ st.pEnd = Len(st.pasteAt) THEN {}
+                       ELSE {Dev("C05.lost", "paste_marker", <<Len(st.pasteAt), st.pStart, st.pEnd>>)})>>
       [] e.ev = "FiniHang" -> <<st, {Dev("C06.hang", "Fini", "after delivery run")}>>
       \* HasPendingEvent answered true, yet PollEvent then blocked for seconds with nothing posted or typed
       [] e.ev = "PendingLie" -> <<st, {Dev("C05.pending", "true_but_poll_blocked", <<e.where, e.waited_ms>>)}>>
